@@ -1,6 +1,6 @@
 (** C10 — exit status, diagnostics and output-file contract of `build`.  Statements only. *)
 From GV Require Import Base.Str Base.Gerr Model.Env Model.Input Model.Compile Model.Runner Spec.Pipeline
-  Proofs.RunnerProofs Proofs.PipelineProofs Gen.EnvGen Tie.EnvTie.
+  Proofs.RunnerProofs Proofs.PipelineProofs Proofs.GerrProofs Gen.EnvGen Tie.EnvTie.
 
 (** For every build version, flag combination, file-system answer (globs, file contents / read errors / YAML errors,
     formatter and write failures): the command does not panic, exits 0 or 1, and exits 0 iff it performed its single
@@ -43,6 +43,27 @@ Proof.
   repeat split; auto; congruence.
 Qed.
 Print Assumptions C10_quiet.
+
+(** a non-zero exit is always accompanied by a non-empty numbered error list whose length is the count printed on the
+    END line of the failing step; without --quiet the report ends with the "Errors:" section listing exactly them *)
+Theorem C10_failure_has_errors : forall (B : str) (fl : flags) (w : world) (out : str) oc,
+  run the_env B fl w out = Ok oc -> oc_exit oc = 1 ->
+  oc_errors oc <> [] /\ numbered (oc_errors oc) <> [] /\
+  (f_quiet fl = false -> exists report, oc_stdout oc = report ++ [s "Errors:"] ++ numbered (oc_errors oc)) /\
+  exists st g evs pre name,
+    run_core the_env B fl w out = ((st, Some g), evs) /\ oc_errors oc = collection g /\
+    evs = pre ++ [EvAligned (name ++ s " END") (k_xmark the_env) (count_suffix g)] /\
+    (1 <= length (collection g))%nat /\
+    count_suffix g = s " (" ++ dec_of_N (N.of_nat (length (oc_errors oc)))
+                       ++ (if Nat.ltb 1 (length (oc_errors oc)) then s " errors)" else s " error)").
+Proof. intros B fl w out oc. exact (run_failure_has_errors the_env the_env_std B fl w out oc). Qed.
+Print Assumptions C10_failure_has_errors.
+
+(** every error value the model can build is a well-formed grouperror: no empty group anywhere in the tree *)
+Theorem C10_errors_wellformed : forall (B : str) (fl : flags) (w : world) (out : str),
+  wf_err (snd (fst (run_core the_env B fl w out))).
+Proof. intros. apply run_core_wf. Qed.
+Print Assumptions C10_errors_wellformed.
 
 (** non-vacuity: a world in which the run succeeds and one in which reading fails *)
 Example C10_ex_ok :
